@@ -343,6 +343,45 @@ def h_repack(s0: int, s1: int, touch: int, readonly: bool) -> bool:
     return _check_against_model(got, model, False, readonly)
 
 
+def h_pack_from_listing(s0: int, s1: int, target: int, stale: int) -> bool:
+    """
+    pre: 0 <= s0 < len(_RC_LABELS) and 0 <= s1 < len(_RC_LABELS) and 0 <= target <= 1 and 0 <= stale <= 2
+    pre: B.get("s0") is None or s0 in B["s0"]
+    pre: B.get("s1") is None or s1 in B["s1"]
+    post: _ == True
+    """
+    # the children dict handed to pack_children is the AuxValueDict of a LISTING of directory X (its aux values are X's serialised
+    # entries, write caps encrypted under X's writekey) - possibly with aux values that no longer belong to the values (stale).
+    # Packing it as the contents of a NEW directory (another writekey, or an immutable directory) must serialise the VALUES:
+    # unpack(pack(children)) == children.
+    k0, k1 = F.tok_child(pick(_RC_LABELS, s0)), F.tok_child(pick(_RC_LABELS, s1))
+    wx, wy = b"X" * 16, b"Y" * 16
+    imm = target == 1
+    if imm:
+        assume(k0.allowed_imm and k1.allowed_imm)
+    fake = F.FakeAES()
+    saved = D.aes
+    D.aes = fake
+    try:
+        packed_x = D.pack_children({"x": (k0, {"v": 1}), "y": (k1, {"v": 2})}, wx)
+        listing = _unpack(_reader(False, False, wx, F.RecNodeMaker()), packed_x)
+        # the listing's nodes are the recorder's tokens carrying exactly the caps of the children
+        model = {"x": (k0.rw, k0.ro, {"v": 1}), "y": (k1.rw, k1.ro, {"v": 2})}
+        if stale == 1:
+            # value replaced, cached serialisation of the old value kept (e.g. by code that updates through set_with_aux)
+            listing.set_with_aux("x", (listing["y"][0], {"v": 3}), listing.get_aux("x"))
+            model["x"] = (k1.rw, k1.ro, {"v": 3})
+        elif stale == 2:
+            listing.set_with_aux("y", (listing["y"][0], {"v": 4}), listing.get_aux("x"))
+            model["y"] = (k1.rw, k1.ro, {"v": 4})
+        packed_y = D.pack_children(listing, None if imm else wy, deep_immutable=imm)
+        nm = F.RecNodeMaker()
+        got = _unpack(_reader(imm, False, wy, nm), packed_y)
+    finally:
+        D.aes = saved
+    return _check_against_model(got, model, imm, False)
+
+
 def _same_node(a, b, imm):
     if type(a) is not type(b):
         return "node type %s became %s" % (type(a).__name__, type(b).__name__)
